@@ -335,9 +335,10 @@ def r5(ctx: Ctx) -> None:
     fh = ctx.func(MODULE, "Module.has_stog")
     ch = canon_function(fh, ctx.model)
     ctx.site(fh.where, "has_stog == first rectangle is TRUNK")
-    want = ("ret", mk_and([mk_lt(k_num(0), ("a", ("self",), "num_rectangles")),
-                           ("cmp", "seq", *sorted([("a", ("s", ("a", ("self",), "rectangles"), k_num(0)), "location"), trunk], key=skey))]))
-    if ch != (want,):
+    first_is_trunk = ("cmp", "seq", *sorted([("a", ("s", ("a", ("self",), "rectangles"), k_num(0)), "location"), trunk], key=skey))
+    # 'there is a rectangle': the count is positive, or the list is non-empty
+    wants = [("ret", mk_and([ne, first_is_trunk])) for ne in (mk_lt(k_num(0), ("a", ("self",), "num_rectangles")), ("a", ("self",), "rectangles"))]
+    if ch not in [(w,) for w in wants]:
         ctx.report(fh.where, "has-stog " + "; ".join(show(x) for x in ch), "has_stog is not 'num_rectangles > 0 and rectangles[0].location == TRUNK'", lineno=fh.node.lineno)
 
 
